@@ -83,6 +83,12 @@ type State struct {
 	heap  map[string]*Term
 	epoch string
 	lazy  *lazyMerge // how to resolve heaps not materialised when states with different epochs were merged
+	carry *carryRec  // heaps surviving a partial havoc, resolved lazily from the state before it
+}
+
+type carryRec struct {
+	keep   func(name string) bool
+	parent *State
 }
 
 type lazyMerge struct {
@@ -95,7 +101,7 @@ func newState() *State {
 }
 
 func (s *State) clone() *State {
-	n := &State{pc: s.pc, cells: make(map[*Cell]Val, len(s.cells)), heap: make(map[string]*Term, len(s.heap)), epoch: s.epoch, lazy: s.lazy}
+	n := &State{pc: s.pc, cells: make(map[*Cell]Val, len(s.cells)), heap: make(map[string]*Term, len(s.heap)), epoch: s.epoch, lazy: s.lazy, carry: s.carry}
 	for k, v := range s.cells {
 		n.cells[k] = v
 	}
@@ -117,7 +123,9 @@ func (s *State) H(name string, so *Sort) *Term {
 		heapNames = append(heapNames, name)
 	}
 	var t *Term
-	if s.lazy != nil {
+	if s.carry != nil && s.carry.keep(name) {
+		t = s.carry.parent.H(name, so)
+	} else if s.lazy != nil {
 		// resolve through the states this one was merged from
 		t = s.lazy.parents[0].H(name, so)
 		for i := 1; i < len(s.lazy.parents); i++ {
@@ -156,21 +164,26 @@ func (s *State) havocAll() { s.havocExcept(nil) }
 // havocExcept forgets every heap except those for which keep returns true.
 func (s *State) havocExcept(keep func(name string) bool) {
 	kept := map[string]*Term{}
+	var cr *carryRec
 	if keep != nil {
 		for _, n := range heapNames {
 			if keep(n) {
 				kept[n] = s.H(n, heapSorts[n])
 			}
 		}
+		// heaps not touched yet are resolved lazily from a snapshot of the state before
+		snap := &State{pc: s.pc, cells: map[*Cell]Val{}, heap: s.heap, epoch: s.epoch, lazy: s.lazy, carry: s.carry}
+		cr = &carryRec{keep: keep, parent: snap}
 	}
 	s.heap = kept
 	s.epoch = newEpoch()
 	s.lazy = nil
+	s.carry = cr
 }
 
 func sameLazy(ins []*State) bool {
 	for _, s := range ins[1:] {
-		if s.lazy != ins[0].lazy {
+		if s.lazy != ins[0].lazy || s.carry != ins[0].carry {
 			return false
 		}
 	}
@@ -278,6 +291,7 @@ func (x *Exec) mergeStates(ins []*State) *State {
 	if same && sameLazy(ins) {
 		out.epoch = ins[0].epoch
 		out.lazy = ins[0].lazy
+		out.carry = ins[0].carry
 	} else {
 		same = false
 		out.epoch = newEpoch()
